@@ -125,7 +125,7 @@ func (core *JApiCore) compileUserTypeWithAllDependencies(name string) error {
 	// Check user type is correct.
 	// We should do it here 'cause it will simplify further processing.
 	if err := currUT.Check(); err != nil {
-		return jschemaToJAPIError(err, dd.GetValue(name))
+		return core.userTypeToJAPIError(err, name)
 	}
 
 	core.userTypes.Set(name, currUT)
@@ -176,4 +176,17 @@ func jschemaToJAPIError(err error, d *directive.Directive) *jerr.JApiError {
 		return d.BodyErrorIndex(e.Message(), e.Position())
 	}
 	return d.KeywordError(err.Error())
+}
+
+// userTypeToJAPIError does the same as jschemaToJAPIError for the user type name,
+// but attributes the error to the user type in which the library found it.
+func (core *JApiCore) userTypeToJAPIError(err error, name string) *jerr.JApiError {
+	dd := core.catalog.GetRawUserTypes()
+	var e kit.Error
+	if errors.As(err, &e) && e.IncorrectUserType() != "" {
+		if d := dd.GetValue(e.IncorrectUserType()); d != nil {
+			return jschemaToJAPIError(err, d)
+		}
+	}
+	return jschemaToJAPIError(err, dd.GetValue(name))
 }
